@@ -26,6 +26,7 @@ import (
 	"strconv"
 	"strings"
 	"sync"
+	"time"
 
 	"github.com/bio-routing/bio-rd/protocols/bgp/packet"
 
@@ -656,6 +657,9 @@ func singles(m map[string]int) map[string]int {
 
 func main() {
 	if batch.IsChild() {
+		// no FSM ever ceases in this workload, so a barrier that is late on a closed connection is a stalled
+		// machine, not an ended FSM: wait for it
+		speaker.CeaseGrace = 5 * time.Second
 		batch.ChildMain(runCase)
 		return
 	}
